@@ -17,8 +17,11 @@ def mon_setup(tr, sc):
     w = SC.Wire()
     established = False
     seen_non_connect = {}
+    cfgx = None
     for i, (op, lines) in enumerate(tr):
         f = op.split()
+        if f and f[0] == "cfgx":
+            cfgx = f
         if f and f[0] == "adopt":
             established = False
             if len(f) > 1:
@@ -32,9 +35,30 @@ def mon_setup(tr, sc):
                             out.append(("setup:clean-unrequested", "CONNECT asks for a clean session although Config does not"))
                         if d.get("clean") and established:
                             out.append(("setup:clean-on-reconnect", "CONNECT asks for a clean session on a reconnect"))
+                        bad = connect_vs_config(d, cfgx)
+                        if bad:
+                            out.append(("setup:connect-config", "CONNECT does not reflect the Config: " + bad))
                     else:
                         established = True     # something after CONNECT on a connection: its CONNACK was accepted
     return out
+
+
+def connect_vs_config(d, cfgx):
+    """the decoded CONNECT against the rest of the Config given with `cfgx` (none: no user, password, will, keep-alive 0)"""
+    if d.get("connect_malformed"):
+        return "malformed (%s)" % d["connect_malformed"]
+    x = cfgx or ["cfgx", "0", "-", "nil", "-", "nil", "0", "0", "0"]
+    hx = lambda v: None if v == "nil" else SC.unhex(v)
+    ka, user, pw, wt, wm = int(x[1]), SC.unhex(x[2]), hx(x[3]), SC.unhex(x[4]), hx(x[5])
+    want = {"keepalive": ka}
+    if user or pw is not None:
+        want["user"] = user
+    if pw is not None:
+        want["pass"] = pw
+    if wm is not None:
+        want.update(willtopic=wt, willmsg=wm, willretain=x[6] == "1", willqos=2 if x[8] == "1" else (1 if x[7] == "1" else 0))
+    got = {k: d.get(k) for k in ("keepalive", "user", "pass", "willtopic", "willmsg", "willretain", "willqos") if d.get(k) is not None}
+    return "" if got == want else "got %s, Config says %s" % (got, want)
 
 
 def mon_connack(tr, sc):
